@@ -1,0 +1,112 @@
+//go:build verif
+
+// Package vhook holds the seams used by the deterministic-simulation harness
+// that lives outside this repository. With the `verif` build tag off (the
+// default) every function here is an empty inlinable stub (see off.go) and
+// `vhook.On` is a false constant, so shipped behaviour is unchanged.
+package vhook
+
+import "time"
+
+// On reports whether the hooks are compiled in.
+const On = true
+
+// The harness installs these. A nil function means "hook disabled".
+var (
+	PointFn      func(site string, id uint64)
+	WaitLockFn   func(site string, try func() bool)
+	NoYieldFn    func(delta int)
+	ChooseFn     func(site string, n int) int
+	IOFn         func(kind, path string, off, n int64)
+	EventFn      func(kind string, a, b uint64)
+	EventKVFn    func(kind string, key, val []byte, a, b uint64)
+	FaultFn      func(site string) error
+	SkipHeightFn func() (int, bool)
+	NowFn        func() (time.Time, bool)
+)
+
+// Point is a schedule point: under simulation the calling goroutine may be
+// parked here until the scheduler releases it.
+func Point(site string) {
+	if f := PointFn; f != nil {
+		f(site, 0)
+	}
+}
+
+// PointID is Point with an actor id that gives the goroutine a stable name.
+func PointID(site string, id uint64) {
+	if f := PointFn; f != nil {
+		f(site, id)
+	}
+}
+
+// WaitLock cooperatively waits until try() would succeed. It is placed in
+// front of the acquisition of a lock that may be held across a Point.
+func WaitLock(site string, try func() bool) {
+	if f := WaitLockFn; f != nil {
+		f(site, try)
+	}
+}
+
+// NoYield brackets a section entered with a caller's lock held: Points inside
+// are pass-through for this goroutine while the counter is positive.
+func NoYield(delta int) {
+	if f := NoYieldFn; f != nil {
+		f(delta)
+	}
+}
+
+// Choose lets the simulator decide between n alternatives that would
+// otherwise be picked by the runtime (a select with several ready cases).
+// Returns -1 when the simulator is not active.
+func Choose(site string, n int) int {
+	if f := ChooseFn; f != nil {
+		return f(site, n)
+	}
+	return -1
+}
+
+// IO reports a persistence step (a crash point).
+func IO(kind, path string, off, n int64) {
+	if f := IOFn; f != nil {
+		f(kind, path, off, n)
+	}
+}
+
+// Event reports a semantic trace event.
+func Event(kind string, a, b uint64) {
+	if f := EventFn; f != nil {
+		f(kind, a, b)
+	}
+}
+
+// EventKV reports a semantic trace event that carries a key and a value.
+func EventKV(kind string, key, val []byte, a, b uint64) {
+	if f := EventKVFn; f != nil {
+		f(kind, key, val, a, b)
+	}
+}
+
+// Fault returns an injected error for the site, or nil.
+func Fault(site string) error {
+	if f := FaultFn; f != nil {
+		return f(site)
+	}
+	return nil
+}
+
+// SkipHeight returns a simulator-chosen skiplist tower height.
+func SkipHeight() (int, bool) {
+	if f := SkipHeightFn; f != nil {
+		return f()
+	}
+	return 0, false
+}
+
+// Now returns the simulator's clock (used for table creation times).
+func Now() (time.Time, bool) {
+	if f := NowFn; f != nil {
+		return f()
+	}
+	return time.Time{}, false
+}
